@@ -6,6 +6,8 @@ package main
 
 import (
 	"math/rand"
+
+	"github.com/evolbioinfo/goalign/align"
 )
 
 type heapGen struct {
@@ -15,6 +17,9 @@ type heapGen struct {
 	steps int
 	last  *Step
 	reps  int
+	codon bool
+	pair1 *Step
+	pair2 *Step
 }
 
 func newHeapGen(rng *rand.Rand, mode, tier string) *heapGen {
@@ -93,6 +98,59 @@ func (g *heapGen) lenChoice() int {
 		c = append(c, 15, 20, 30)
 	}
 	return c[g.rng.Intn(len(c))]
+}
+
+// codonPair returns the two New steps of a CodonAlign workload: a bag of gap-free nucleotide sequences and a protein
+// alignment whose rows are their translations (computed by goalign itself; the trace specification re-checks that
+// precondition with its own genetic code) with gaps inserted at random places.
+func (g *heapGen) codonPair() (*Step, *Step) {
+	n := 1 + g.rng.Intn(4)
+	code := 0
+	ntrows := []interface{}{}
+	aas := [][]int{}
+	maxaa := 0
+	for i := 0; i < n; i++ {
+		l := 3*(1+g.rng.Intn(5)) + g.rng.Intn(3)
+		if g.rng.Intn(6) == 0 {
+			l += 3 // sometimes too long / mismatching: error path
+		}
+		s := g.seq([]byte("ACGTacgtuRYN"), l)
+		nm := []int{int('s'), int('0') + i}
+		ntrows = append(ntrows, map[string]interface{}{"n": toIface(nm), "s": toIface(s)})
+		sq := align.NewSequence("x", i2b(s), "")
+		tr, err := sq.Translate(0, code)
+		if err != nil {
+			panic(harnessPanic("harness: cannot translate generated sequence"))
+		}
+		aa := b2i(tr.SequenceChar())
+		if g.rng.Intn(8) == 0 && len(aa) > 1 {
+			aa = aa[:len(aa)-1] // protein shorter than the nucleotides allow: error path
+		}
+		aas = append(aas, aa)
+		if len(aa) > maxaa {
+			maxaa = len(aa)
+		}
+	}
+	L := maxaa + g.rng.Intn(3)
+	aarows := []interface{}{}
+	for i, aa := range aas {
+		row := make([]int, 0, L)
+		gaps := L - len(aa)
+		k := 0
+		for len(row) < L {
+			if gaps > 0 && (k == len(aa) || g.rng.Intn(L) < gaps) {
+				row = append(row, '-')
+				gaps--
+			} else {
+				row = append(row, aa[k])
+				k++
+			}
+		}
+		aarows = append(aarows, map[string]interface{}{"n": toIface([]int{int('s'), int('0') + i}), "s": toIface(row)})
+	}
+	s1 := &Step{Op: "New", Recv: 0, A: map[string]interface{}{"k": "bag", "al": float64(1), "pol": float64(0), "rows": ntrows}}
+	s2 := &Step{Op: "New", Recv: 0, A: map[string]interface{}{"k": "align", "al": float64(0), "pol": float64(0), "rows": aarows}}
+	return s1, s2
 }
 
 func (g *heapGen) newObject(forceAlign bool) *Step {
@@ -226,10 +284,22 @@ var opsByMode = map[string][]string{
 	"C19": {"Clone", "CloneSeqBag", "SubAlign", "SelectSites", "Transpose", "BuildBootstrap", "Consensus", "RandSubAlign", "Unalign", "Sample",
 		"Query", "Query", "Query", "SetSequenceChar", "SetSequenceChar", "ReplaceChar", "ReverseComplement", "Mask", "ToLower", "MaxCharStats",
 		"CharStats", "Entropy", "Pssm", "CountDifferences", "Split", "Append", "DiffWithFirst", "Replace", "TrimSequences"},
-	"C05": {"Translate", "Translate", "Clone", "CloneSeqBag", "Unalign"},
+	"C05": {"Translate", "Translate", "TranslateByReference", "TranslateByReference", "TranslateByReference", "CodonAlign", "CodonAlign", "Clone", "CloneSeqBag", "Unalign"},
 }
 
 func (g *heapGen) next(h *heapRun, i int) *Step {
+	if g.mode == "C05" && i == 0 {
+		g.codon = g.rng.Intn(3) == 0
+		if g.codon {
+			g.pair1, g.pair2 = g.codonPair()
+		}
+	}
+	if g.mode == "C05" && g.codon && i < 2 {
+		if i == 0 {
+			return g.pair1
+		}
+		return g.pair2
+	}
 	if i == 0 {
 		return g.newObject(true)
 	}
@@ -390,6 +460,30 @@ func (g *heapGen) args(h *heapRun, op string, recv int, o *obj) *Step {
 		}
 		a["frame"] = f64([]int{-1, 0, 1, 2}[g.rng.Intn(4)])
 		a["code"] = f64([]int{0, 1, 2, 0, 3}[g.rng.Intn(5)])
+	case "TranslateByReference":
+		if !needAl() || n == 0 {
+			return nil
+		}
+		a["ref"] = toIface(g.existingName(o))
+		a["frame"] = f64([]int{0, 0, 1, 2}[g.rng.Intn(4)])
+		a["code"] = f64(g.rng.Intn(3))
+	case "CodonAlign":
+		// receiver: a protein alignment made of gapped translations of the rows of a nucleotide bag (built by the
+		// "NewCodonPair" pseudo step below); here we only look for such a pair among the live objects
+		if !needAl() || alph != 0 {
+			return nil
+		}
+		nt := 0
+		for i, x := range h.objs {
+			if x.al == nil && x.sb.Alphabet() == 1 {
+				nt = i + 1
+			}
+		}
+		if nt == 0 {
+			return nil
+		}
+		a["nt"] = f64(nt)
+		a["code"] = f64(0)
 	case "Sample":
 		if !needAl() {
 			return nil
@@ -707,7 +801,7 @@ func (g *heapGen) args(h *heapRun, op string, recv int, o *obj) *Step {
 		if !needAl() || n == 0 || L < 1 {
 			return nil
 		}
-		qs := []string{"fasta", "phylip", "nexus", "clustal", "stockholm", "paml", "dist", "sw", "orf", "string", "protdist"}
+		qs := []string{"fasta", "phylip", "nexus", "clustal", "stockholm", "paml", "dist", "sw", "swatg", "swatg", "orf", "string", "protdist"}
 		a["q"] = qs[g.rng.Intn(len(qs))]
 	default:
 		panic(harnessPanic("harness: generator has no arguments for " + op))
